@@ -677,6 +677,9 @@ func (r *Report) Finish(c *Ctx, verifDir string, start time.Time, explanation st
 	}
 	for k := range knownIdx {
 		if !usedKnown[k] {
+			if strings.HasPrefix(k, "ARCH386/") && r.Tier != "thorough" {
+				continue // the 32-bit rules run in the thorough tier only
+			}
 			lines = append(lines, fmt.Sprintf("NOTE property=%s known finding %q no longer reproduces on this tree", r.Prop, k))
 		}
 	}
